@@ -487,8 +487,10 @@ func Ref(root cidlink.Link, sel ipld.Node, resolve Resolver, linkBudget int64) (
 	}
 	res.Err = traversal.Progress{
 		Cfg: &traversal.Config{
-			LinkSystem:                     lsys,
-			LinkTargetNodePrototypeChooser: func(datamodel.Link, linking.LinkContext) (datamodel.NodePrototype, error) { return basicnode.Prototype.Any, nil },
+			LinkSystem: lsys,
+			LinkTargetNodePrototypeChooser: func(datamodel.Link, linking.LinkContext) (datamodel.NodePrototype, error) {
+				return basicnode.Prototype.Any, nil
+			},
 		},
 		Budget: budget,
 	}.WalkAdv(nd, s, func(p traversal.Progress, n ipld.Node, r traversal.VisitReason) error {
